@@ -75,8 +75,8 @@ TReset ==
   /\ cst' = [c \in Cons |-> "absent"] /\ once' = [c \in Cons |-> FALSE]
   /\ closer' = [c \in Cons |-> NoG] /\ cmu' = [c \in Cons |-> NoG]
   /\ bclosed' = FALSE /\ bonce' = FALSE /\ bcloser' = NoG /\ bdone' = FALSE
-  /\ cleaner' = IF Cur.cleaner.kind = "fixed"
-                  THEN [kind |-> "fixed", max |-> Cur.cleaner.max, target |-> Cur.cleaner.target]
+  /\ cleaner' = IF Cur.cleaner.kind \in {"fixed", "const"}
+                  THEN [kind |-> Cur.cleaner.kind, max |-> Cur.cleaner.max, target |-> Cur.cleaner.target]
                   ELSE [kind |-> "default"]
   /\ start' = [c \in Cons |-> 0] /\ stream' = [c \in Cons |-> <<>>]
   /\ pend' = [g \in GS |-> Idle]
@@ -153,6 +153,14 @@ TREnd ==
         \/ rs[g].s = "loop" /\ Cur.r = "canceled"
      /\ rs' = [rs EXCEPT ![g] = NoRs]
   /\ UNCHANGED <<vars, pend, cancelled, cdone>>
+
+\* Buffer.Range's callback has returned (logged by the callback itself as its last action): only now is the
+\* end-of-buffer check (Diff) made, so whatever was Put while the callback ran is still visited
+TBcb ==
+  /\ IsEv("bcb") /\ Consume
+  /\ pend[Cur.g].st = "called" /\ pend[Cur.g].pc = "cb"
+  /\ pend' = [pend EXCEPT ![Cur.g].pc = "diff"]
+  /\ UNCHANGED <<vars, cancelled, cdone, rs>>
 
 \* a pending call of g could take a step of the specification now (so the real call should not be stuck)
 CanProgress(g) ==
@@ -335,7 +343,7 @@ BRGetDone(g) ==
          v == IF HasRet(g) /\ Len(RetOf(g).vs) > Len(acc) THEN RetOf(g).vs[Len(acc) + 1]
               ELSE IF Pos(c) < Len(log) /\ Pos(c) >= 0 THEN log[Pos(c) + 1] ELSE 0 IN
      \/ /\ GetDone(g, c, Cx(g), "ok", v)
-        /\ pend' = [pend EXCEPT ![g].st = "called", ![g].pc = "diff", ![g].acc = Append(acc, v)]
+        /\ pend' = [pend EXCEPT ![g].st = "called", ![g].pc = "cb", ![g].acc = Append(acc, v)]
      \/ /\ GetDone(g, c, Cx(g), "canceled", 0)
         /\ pend' = [pend EXCEPT ![g].st = "called", ![g].pc = "rb", ![g].cont = TRUE]
      \/ /\ GetDone(g, c, Cx(g), "past", 0)
@@ -377,7 +385,7 @@ TSilent ==
 
 TVNext ==
   \/ TSilent
-  \/ TReset \/ TCall \/ TRet \/ TCancel \/ TCancelled \/ TRBegin \/ TCb \/ TREnd \/ TQuiescent \/ TFinal
+  \/ TReset \/ TCall \/ TRet \/ TBcb \/ TCancel \/ TCancelled \/ TRBegin \/ TCb \/ TREnd \/ TQuiescent \/ TFinal
 
 TVSpec == TVInit /\ [][TVNext]_tvars
 
